@@ -20,7 +20,10 @@ RULE = ('2-40 rows with distinct positive wavelengths (linear / log / random spa
         'run in process on a par file ([Observation] text file / TauREx-HDF5 file / taurex_spectrum = self, [Instrument] '
         'snr / file / absent, [Binning] absent / native / observed / manual accurate or not, four grid keywords) with -o, the '
         'Observed/* and Output/Spectra/binned_* datasets of the output judged wherever the program binds its output to the '
-        'observation. distinct non-trivial = distinct (source, columns, spacing, permutation kind, number of rows) '
+        'observation; caller stream (array source): whole-number rows handed over as an int64 / int32 array, the caller re-using '
+        'its input buffer after the observation is built (rows already longest-wavelength-first included), native models that '
+        'cover the observation only partly (bins wholly below / above the model), and a binner that has binned another native '
+        'grid of the same length before. distinct non-trivial = distinct (source, columns, spacing, permutation kind, number of rows) '
         'with non-uniform errors/widths')
 ASSUMPTIONS = ['argsort = stable insertion sort by key (distinct wavelengths)',
                'np.loadtxt / np.savetxt(%.17g) and h5py round-trip float64 exactly (container I/O is external: files are '
@@ -153,14 +156,80 @@ def gen_case(rng, k):
                 nc=nc, ns=ns)
 
 
-def build(source, rows, tmp, tag):
-    """construct the real object from the array rows (wavelength, value, error[, width])"""
+# ----------------------------------------------------------------------------- caller stream
+# What the CALLER does around the loader (array source): the element type of the array it hands over (whole-number rows as an
+# integer array: wavelengths in whole microns, depths and errors in whole ppm), what it does with its array afterwards (the
+# buffer is re-used for the next data set), which native model it bins with the created binner (one that covers the observation
+# only partly: observation bins wholly below / above the model's range) and what the binner object has binned before (another
+# native grid with the same number of points).  The loaded object and the binned model are judged exactly as in the plain stream
+# (Observation.load / binModel of the Lean model on the float rows, then the property's predicates).
+CALLER_DTYPES = ['int64', 'float64', 'int32']
+COVERAGE = ['full', 'low-cut', 'high-cut', 'both-cut']
+
+
+def gen_int_rows(rng):
+    """whole-number rows (wavelength, value, error, width) with odd and even wavelength spacings"""
+    n = int(rng.integers(2, 25)) if rng.random() < 0.8 else int(rng.integers(2, 5))
+    wl = int(rng.integers(3, 12)) + np.concatenate([[0], np.cumsum(rng.integers(1, 5, size=n - 1))])
+    v = rng.integers(100, 30000, size=n)
+    e = rng.integers(1, 500, size=n)
+    d = np.diff(wl)
+    near = np.minimum(np.concatenate([[d[0]], d]), np.concatenate([d, [d[-1]]]))
+    bw = np.array([int(rng.integers(1, max(2, x + (2 if rng.random() < 0.3 else 0)))) for x in near])
+    return np.column_stack([wl, v, e, bw]).astype(float)
+
+
+def gen_caller_case(rng, k):
+    dtype = CALLER_DTYPES[k % 3]
+    if dtype == 'float64':
+        spacing, rows = gen_rows(rng, int(rng.integers(0, 3)))
+    else:
+        spacing, rows = 'whole-numbers', gen_int_rows(rng)
+    n = len(rows)
+    ncol = 3 if (k // 3) % 2 == 0 else 4
+    pk = ['reversed', 'identity', 'random', 'reversed', 'random'][(k // 2) % 5]
+    coverage = COVERAGE[(k // 6) % 4] if (k // 24) % 2 == 0 else COVERAGE[int(rng.integers(0, 4))]
+    wn = np.sort(10000 / rows[:, 0])
+    lo, hi = wn[0] * rng.uniform(0.7, 0.98), wn[-1] * rng.uniform(1.02, 1.3)
+    j = int(rng.integers(1, n))
+    if coverage in ('low-cut', 'both-cut'):       # the model starts inside the observation: the bins below it have no model
+        lo = wn[j] * rng.uniform(0.97, 1.0) if rng.random() < 0.7 else 0.5 * (wn[j - 1] + wn[j])
+    if coverage in ('high-cut', 'both-cut'):
+        jj = j if coverage == 'both-cut' else int(rng.integers(0, n - 1))
+        hi = wn[jj] * rng.uniform(1.0, 1.03) if rng.random() < 0.7 else 0.5 * (wn[jj] + wn[min(jj + 1, n - 1)])
+        if coverage == 'both-cut' and hi <= lo * 1.001:
+            hi = lo * rng.uniform(1.01, 1.2)
+    m = int(rng.integers(20, 200))
+    geo = rng.random() < 0.4
+    nc = np.unique(np.geomspace(lo, hi, m) if geo else np.linspace(lo, hi, m))
+    ns = 10 ** rng.uniform(-4, -1) * (1 + 0.3 * np.sin(nc / rng.uniform(20, 2000)) + 0.1 * rng.standard_normal(len(nc)))
+    c = dict(stream='caller', spacing=spacing, rows=rows[:, :ncol], ncol=ncol, source='array', perm_kind=pk,
+             p1=perm_of(rng, n, pk), p2=rng.permutation(n), nc=nc, ns=ns, dtype=dtype, reuse_buffer=bool(k % 2 == 0),
+             coverage=coverage)
+    if (k // 3) % 3 != 2:
+        # another native model binned first by the same binner: same number of points, other spacing and range
+        lo0, hi0 = lo * rng.uniform(0.5, 1.5), hi * rng.uniform(0.8, 2.0)
+        if hi0 <= lo0 * 1.01:
+            hi0 = lo0 * 2
+        nc0 = np.linspace(lo0, hi0, len(nc)) if geo else np.geomspace(lo0, hi0, len(nc))
+        c['nc0'] = nc0
+        c['ns0'] = 10 ** rng.uniform(-4, -1) * (1 + 0.3 * rng.standard_normal(len(nc0)))
+    return c
+
+
+def build(source, rows, tmp, tag, dtype=None, keep=None):
+    """construct the real object from the array rows (wavelength, value, error[, width]).  `dtype` (array source): the
+    element type of the array the caller hands over (whole-number rows as an integer array); `keep`: a list that receives
+    the very buffer handed to ArraySpectrum (the caller's array, which the caller may go on using)"""
     from taurex.data.spectrum.array import ArraySpectrum
     from taurex.data.spectrum.observed import ObservedSpectrum
     from taurex.data.spectrum.taurex import TaurexSpectrum
     rows = np.asarray(rows, float)
     if source == 'array':
-        return ArraySpectrum(rows.copy()), rows, 0 if rows.shape[1] == 3 else 1
+        buf = rows.copy() if dtype in (None, 'float64') else np.ascontiguousarray(rows.astype(dtype))
+        if keep is not None:
+            keep.append(buf)
+        return ArraySpectrum(buf), rows, 0 if rows.shape[1] == 3 else 1
     if source == 'text':
         fn = os.path.join(tmp, 'obs_%s.dat' % tag)
         np.savetxt(fn, rows, fmt='%.17g')
@@ -182,8 +251,11 @@ def build(source, rows, tmp, tag):
     return TaurexSpectrum(fn), np.column_stack([wn, v, e, wnw]), 2
 
 
-def observe(o, nc, ns):
+def observe(o, nc, ns, first=None):
     b = o.create_binner()
+    if first is not None:
+        # the SAME binner object has binned another native model before (another native grid with the same number of points)
+        b.bin_model((np.asarray(first[0], float), np.asarray(first[1], float), None, None))
     bm = b.bin_model((np.asarray(nc, float), np.asarray(ns, float), None, None))
     return dict(wn=np.asarray(o.wavenumberGrid, float), spectrum=np.asarray(o.spectrum, float),
                 error=np.asarray(o.errorBar, float), widths=np.asarray(o.binWidths, float),
@@ -216,11 +288,19 @@ def _eval(ctx, c, tmp):
     p1, p2 = np.asarray(c['p1'], int), np.asarray(c['p2'], int)
     full = dict(c)
     small = dict(source=source, ncol=ncol, n=n, spacing=c.get('spacing'), perm=c.get('perm_kind'))
+    # caller stream (all optional: absent = the plain case)
+    dtype = c.get('dtype')
+    first = (np.asarray(c['nc0'], float), np.asarray(c['ns0'], float)) if c.get('nc0') is not None else None
+    keep = []
     try:
-        o1, stored1, kind = build(source, rows[p1], tmp, 'a')
-        o2, stored2, _ = build(source, rows[p2], tmp, 'b')
-        r1 = observe(o1, nc, ns)
-        r2 = observe(o2, nc, ns)
+        o1, stored1, kind = build(source, rows[p1], tmp, 'a', dtype=dtype, keep=keep)
+        o2, stored2, _ = build(source, rows[p2], tmp, 'b', dtype=dtype, keep=keep)
+        if c.get('reuse_buffer'):
+            # the caller goes on using ITS arrays (the next data set is written into the same buffers)
+            for buf in keep:
+                buf[...] = buf[::-1] * 3 + 1
+        r1 = observe(o1, nc, ns, first)
+        r2 = observe(o2, nc, ns, first)
     except Exception as e:
         ctx.violation('load-raises:' + source, 'loading a well-formed observation raised %r' % (e,), full)
         return
@@ -240,6 +320,13 @@ def _eval(ctx, c, tmp):
     ctx.bucket('columns:%d' % ncol)
     ctx.bucket('perm:' + str(c.get('perm_kind')))
     ctx.bucket('spacing:' + str(c.get('spacing')))
+    if c.get('stream') == 'caller':
+        ctx.bucket('caller:array-dtype:' + str(dtype or 'float64'))
+        ctx.bucket('caller:input-buffer:' + ('reused-by-caller-afterwards' if c.get('reuse_buffer') else 'left-alone'))
+        ctx.bucket('caller:binner:' + ('used-before-on-another-native-grid-of-equal-length' if first is not None else 'fresh'))
+        ctx.bucket('caller:native-coverage:' + str(c.get('coverage')))
+        if c.get('perm_kind') == 'reversed':
+            ctx.bucket('caller:rows-already-longest-wavelength-first')
 
     # ---- the property's predicates on the implementation
     # (1) order independence
@@ -302,6 +389,9 @@ def _eval(ctx, c, tmp):
         for i in range(n):
             a, b = cw[i] - ww[i] / 2, cw[i] + ww[i] / 2
             ov, S, val, q = c05.oracle(lo, hi, sns.reshape(1, -1), None, a, b)
+            if c.get('stream') == 'caller' and not S > 0:
+                ctx.bucket('caller:observation-bin-wholly-%s-the-native-grid' % ('below' if b <= lo[0] else 'above'
+                                                                                 if a >= hi[-1] else 'between-points-of'))
             if S > 1e-9 * ww[i] and not C.close(r1['binned'][i], val[0], rel=1e-8, abs_=1e-12 * scale):
                 ctx.violation('binned-model-misaligned:' + source,
                               'model binned to the observation: element i is not the overlap mean over the bin of '
@@ -828,6 +918,8 @@ def run(ctx):
             eval_case(ctx, gen_case(rng, k), tmp)
         for k in range(ctx.n(240, 4000)):
             eval_holder_case(ctx, gen_holder_case(rng, k), tmp)
+        for k in range(ctx.n(360, 6000)):
+            eval_case(ctx, gen_caller_case(rng, k), tmp)
         for k in range(ctx.n(144, 1800)):
             eval_program_case(ctx, gen_program_case(rng, k), tmp)
         # malformed stream: outside the quantifier, recorded only
@@ -865,6 +957,8 @@ def search(ctx):
     try:
         for k in range(ctx.n(2000, 10000)):
             eval_case(ctx, gen_case(ctx.rng, k), tmp)
+            if k % 4 == 0:
+                eval_case(ctx, gen_caller_case(ctx.rng, k // 4), tmp)
             if k % 8 == 0:
                 eval_holder_case(ctx, gen_holder_case(ctx.rng, k // 8), tmp)
                 eval_program_case(ctx, gen_program_case(ctx.rng, k // 8), tmp)
